@@ -29,7 +29,11 @@ FORMATS = {
     'gro':       dict(ext='.gro', unit=1.0, time=1, box=2, lengths=None, angles=None, cell=True, has_time=True,
                       length=False, flush=False, tol=2e-3),
     'pdb':       dict(ext='.pdb', unit=0.1, cell=True, has_time=False, tol=2e-4),
+    # read-only fixture format (no writer exists): sequential read(n)/read() only; seek, tell and len raise NotImplementedError
+    'arc':       dict(ext='.arc', unit=1.0, time=None, box=None, lengths=None, angles=None, cell=False, has_time=False,
+                      length=False, flush=False, tol=0.0),
 }
+ARC_FIXTURES = {'nitrogen.arc': (50, 212), '4waters.arc': (1, 12)}
 
 CURSOR_FORMATS = ['h5', 'xtc', 'trr', 'dcd', 'nc', 'mdcrd', 'xyz', 'lammpstrj', 'dtr']
 
